@@ -41,9 +41,23 @@ func execisoMain(args []string) {
 	ca, fa, oa := mk()
 	cb, fb, _ := mk()
 	_ = oa
-	serve(ca, fa, "MULTI")
-	serve(ca, fa, "INCR", "x")
-	serve(ca, fa, "INCR", "x")
+	watchMode := len(args) > 0 && args[0] == "watch"
+	stopAt := 2
+	if watchMode {
+		// C09: A reads x, WATCHes it and queues SET x <read+1>; B's SET x 5 lands after EXEC has examined the watch flags and
+		// before the queued SET runs (stop at the FIRST lookup inside EXEC).  EXECISO a=<EXEC reply> b=.. final=<GET x>:
+		// sound optimistic locking gives a=n (aborted, x = 5) or runs EXEC wholly before B (x = 5); x = 2 is a lost update
+		serve(cb, fb, "SET", "x", "1")
+		serve(ca, fa, "WATCH", "x")
+		serve(ca, fa, "GET", "x")
+		serve(ca, fa, "MULTI")
+		serve(ca, fa, "SET", "x", "2")
+		stopAt = 1
+	} else {
+		serve(ca, fa, "MULTI")
+		serve(ca, fa, "INCR", "x")
+		serve(ca, fa, "INCR", "x")
+	}
 	var mu sync.Mutex
 	var aid int64 = -1
 	hits := 0
@@ -55,7 +69,7 @@ func execisoMain(args []string) {
 		if mine && (point == "hit" || point == "miss") {
 			hits++
 		}
-		stop := mine && hits == 2 && (point == "hit" || point == "miss")
+		stop := mine && hits == stopAt && (point == "hit" || point == "miss")
 		if stop {
 			hits++ // stop once
 		}
@@ -74,9 +88,13 @@ func execisoMain(args []string) {
 		done <- serve(ca, fa, "EXEC")
 	}()
 	b := "not-run"
+	bval := "100"
+	if watchMode {
+		bval = "5"
+	}
 	select {
 	case <-stopped:
-		b = serve(cb, fb, "SET", "x", "100")
+		b = serve(cb, fb, "SET", "x", bval)
 		close(release)
 	case <-time.After(3 * time.Second):
 		close(release)
